@@ -567,3 +567,22 @@ def run(repo: Repo, rep: Report, tier: str) -> None:
     from .shared import borrow as _borrow1c
     _borrow1c(repo, rep, "C15", "C15-R5", "C01-R13", "inside a function body a name means the parameter: compile-time folding of an expression looks a name up among the parameters "
               "first and stops there, so a Signal parameter is never replaced by an outer int of the same name", floor=1)
+
+    # ---------------- R14 --------------------------------------------------------------
+    rep.rule("C01-R14", "two operands of one decider that carry the same signal name are told apart by colour: the planner's wire-colour injection covers the operands of a folded "
+             "(multi-condition) decider as it covers left/right of a single condition — some function it calls stores `<side>_signal_wires` into the rows of "
+             "`conditions`, from the colour recorded for the operand's own edge; rows without a selection read red + green, i.e. the sum of both operands")
+    iw = repo.func("LayoutPlanner._inject_wire_colors_into_placements")
+    lp14 = repo.cls("LayoutPlanner")
+    reach14 = [iw] + [lp14.methods[call_name(c)] for c in calls_in(iw.node) if isinstance(c.func, ast.Attribute) and isinstance(c.func.value, ast.Name) and c.func.value.id == "self" and call_name(c) in lp14.methods]
+    row_stores = []
+    for f14 in reach14:
+        c14 = _c10r(f14)
+        for st in walk_local(f14.node):
+            if isinstance(st, ast.Assign) and isinstance(st.targets[0], ast.Subscript) and "_signal_wires" in c14.text(st.targets[0].slice) \
+                    and "'conditions'" in c14.text(st.targets[0].value) and "get_wire_color_for_edge(" in c14.text(st.value):
+                row_stores.append((f14, st))
+    rep.check(bool(row_stores), "C01-R14", "condition rows of a folded decider receive the wire colour of their operand",
+              f"{row_stores[0][0].short}: {norm(row_stores[0][1])[:80]}" if row_stores else
+              "no injection writes `*_signal_wires` into `conditions`: `Signal a = (\"signal-A\", 5); Signal b = (\"signal-A\", -3); Signal r = (a > 0) && (b > 0);` — a arrives on red, b on green, "
+              "both rows read red + green = 2 and r is 1", iw.loc())
